@@ -1,0 +1,6 @@
+//go:build !verif
+
+package faults
+
+// verifYield is a no-op unless built with the verif tag.
+func verifYield(string, string, Parameters) {}
